@@ -219,8 +219,9 @@ pub fn run_kernel(args: &Args, rep: &mut Report) {
             let mut m2 = model.clone();
             let want = apply_model(&mut m2, &op).err().unwrap_or(0);
             trace.push(format!("{:?} -> kernel {} (reference: {})", op, errclass(got), errclass(want)));
-            rep.eval();
-            rep.key(&format!("kernel|{}|{}|{}|upper{}|lowers{}", format!("{:?}", op).split('(').next().unwrap_or(""), errclass(want), errclass(got), !no_upper, nlower));
+            // not an evaluation of the property (the crate is not involved): counted separately
+            rep.count("kernel:operations-compared", 1);
+            rep.count(&format!("kernel:op:{}:{}", format!("{:?}", op).split('(').next().unwrap_or(""), errclass(got)), 1);
             if no_upper {
                 if got == 0 {
                     disagreement = Some(("model-vs-kernel:lower-only-modified".into(), format!("`{:?}` succeeded on a lower-only kernel overlay", op)));
@@ -228,6 +229,19 @@ pub fn run_kernel(args: &Args, rep: &mut Report) {
                 }
             } else {
                 let certain = matches!(want, 0 | libc::EEXIST | libc::ENOENT | libc::ENOTEMPTY | libc::ENOTDIR | libc::EISDIR);
+                if let (Op::Rmdir(p), libc::ENOTEMPTY, 0) = (&op, got, want) {
+                    // kernel artefact, not a rule: a directory that exists only in the upper layer (not merged) and
+                    // holds nothing but whiteouts lists as empty but cannot be removed, because the kernel only
+                    // clears whiteouts out of *merged* directories before rmdir
+                    use std::os::unix::fs::FileTypeExt;
+                    let only_whiteouts = fs::read_dir(upper.join(p))
+                        .map(|d| d.filter_map(|e| e.ok()).all(|e| e.metadata().map(|m| m.file_type().is_char_device() && m.rdev() == 0).unwrap_or(false)))
+                        .unwrap_or(false);
+                    if only_whiteouts {
+                        rep.count("kernel:artefact:rmdir-of-unmerged-upper-dir-holding-only-whiteouts", 1);
+                        break;
+                    }
+                }
                 if certain && (got == 0) != (want == 0) {
                     disagreement = Some((format!("model-vs-kernel:outcome:{}", format!("{:?}", op).split('(').next().unwrap_or("")), format!("`{:?}`: the kernel answered {} (errno {}), the reference {}", op, errclass(got), got, errclass(want))));
                     break;
